@@ -34,6 +34,7 @@ def jobs():
         jobs_api.register(_JOBS)
         from . import jobs_writer
         jobs_writer.register(_JOBS)
+        jobs_writer.register_ext(_JOBS)
         from . import jobs_options
         jobs_options.register(_JOBS)
         from . import jobs_rfwc
